@@ -255,6 +255,7 @@ func (_this *Context) ValidateIdentifier(data []uint8) {
 }
 
 func (_this *Context) ValidateFullArrayAnyType(arrayType events.ArrayType, elementCount uint64, data []uint8) {
+	_this.ValidateByteCountForType(arrayType, elementCount, uint64(len(data)))
 	switch arrayType {
 	case events.ArrayTypeString:
 		_this.ValidateLengthString(uint64(len(data)))
@@ -266,7 +267,6 @@ func (_this *Context) ValidateFullArrayAnyType(arrayType events.ArrayType, eleme
 		_this.ValidateLengthAnyType(uint64(len(data)))
 		_this.ValidateContentsString(data)
 	default:
-		_this.ValidateByteCountForType(arrayType, elementCount, uint64(len(data)))
 		_this.ValidateLengthAnyType(uint64(len(data)))
 	}
 }
